@@ -15,6 +15,34 @@ CHECKS = {
     ),
 }
 
+CHECKS["C01"] = dict(
+    category="exploration",
+    technique="call-history replay of the real muxer, read-back with the real reader, sequential-model oracle; writer-state hook invariants; metamorphic removal of rejected calls",
+    text=("Runs bounded-exhaustive and seeded random muxer histories (all five media kinds, interleavings, lazily added tracks, rejected calls) "
+          "and compares every sample read back with a sequential model, in both overflow-checked and release builds. This is the right level because the "
+          "property quantifies over histories: the monitor observes tens of thousands of distinct history shapes per run, including every history up to "
+          "length 2/3 over a 54-symbol alphabet, which the three canned round-trip-free tests cannot reach."),
+    note="Trusted base: sequential model in harness/src/muxdrive.rs; hook verif_state (read-only). Histories whose durations cannot be represented in 64-bit header fields are left to C17.",
+    ref="5 (C01)",
+)
+CHECKS["C02"] = dict(
+    category="exploration",
+    technique="independent ISO-BMFF decoder (no library code) over every muxer output; table expansion cross-checked with the history model",
+    text=("Every output of the C01 history space is decoded by an independent strict parser and the sample tables are expanded per ISO 14496-12 and "
+          "compared with the model (sizes, deltas, offsets, sync set, chunk containment/disjointness, bytes at offsets, header durations and versions). "
+          "A reader/writer pair that is wrong in the same way (invisible to C01) is caught here."),
+    note="Trusted base: harness/src/refdec.rs. 'Within one tick' = [floor-1, ceil+1] of the exact rational.",
+    ref="5 (C02), Appendix A",
+)
+CHECKS["C14"] = dict(
+    category="exploration",
+    technique="configuration round trip through real muxer and reader; exhaustive AAC parameter grid and language enumeration; exact-rational duration oracle",
+    text=("Random configurations over the documented domain plus the complete 46x13x7 AAC grid and (thorough) all 26^3 languages are muxed and "
+          "re-opened; every accessor is compared with the configuration. Known finding K1 (AOT >= 32) is attributed only on its exact trigger."),
+    note="Documented domain as stated in the property; K1 listed in KNOWN_FINDINGS.txt.",
+    ref="5 (C14), 7 (K1), Appendix E",
+)
+
 PENDING_REASON = "monitor not yet registered in this commit (implementation in progress, see DESIGN.md section 11); not claimed until its check is silent on the unchanged tree"
 
 def mk():
